@@ -10,6 +10,7 @@ from ..monitors import EscapeMonitor, DbusViewMonitor
 from ..evidence import graph_evidence
 from .c01 import hexn, DEVS
 
+from .c18_nodes import run_nodes, WORKLOADS as NODE_WORKLOADS  # noqa: F401,E402
 PROP = 'C18'
 
 
@@ -402,6 +403,12 @@ def scenarios(tier):
                             params=dict(name=nm, role=role, bundles=bundles, depth=depth), weight=15))
     out.append(dict(name='agent-receive', kind='enum', runner='run_agent_receive', params=dict(name='agent-receive'), weight=15))
     out.append(dict(name='inbound-lengths', kind='enum', runner='run_inbound_lengths', params=dict(name='inbound-lengths'), weight=5))
+    # whole nodes: the BP agent consuming the D-Bus view through the real TCPCL adaptor of bp/cla.py
+    for wname in NODE_WORKLOADS:
+        for order in (['N0', 'N1'], ['N1', 'N0']):
+            nm = 'nodes/%s/%s' % (wname, ''.join(order))
+            out.append(dict(name=nm, kind='enum', runner='run_nodes', params=dict(name=nm, workload=wname, order=order),
+                            weight=60 if wname == 'three' else 8))
     adepth = 3
     aparts = 4 if tier == 'quick' else 8
     for part in range(aparts):
@@ -423,6 +430,7 @@ def scenarios(tier):
 
 
 ASSUMPTIONS = [
+    'whole nodes (real BP agent, real bp.cla.TcpclAdaptor, real TCPCL agent on one bus; two nodes joined by virtual TCP): nine workloads (one to three bundles, both directions, reply over the route the adaptor adds, a bundle after the session was terminated) x the scheduler step at which each later bundle is handed over x two schedule orders; every bundle reaches the destination application once and intact, every contact queue read over the bus is empty at the end',
     'D-Bus marshalling judged by a rule table re-stated from probes of real dbus-python 1.3.2 (self-test in setup)',
     'method calls are dispatched between event-loop iterations; queries are evaluated in every explored state',
     'workloads of at most two bundles per direction',
